@@ -486,3 +486,80 @@ def r_cache_tags(P, R):
             f'R-MEMO/cudd-cache: {n} function(s) use the CUDD computed '
             'table, 4 confirmed on the reference tree')
 r_cache_tags.NAME = 'R-MEMO-CUDD'
+
+
+def r_loader_release(P, R):
+    """dd._copy serves the C back ends as well.  Its JSON loader takes one
+    reference per loaded node through one Function object (`_make_node`:
+    `bdd.incref(u)`) and gives it back through ANOTHER, fresh one
+    (`_load_json`: `u = _node_from_int(...)`, `bdd.decref(u, ...)`).  In
+    dd.cudd / dd.cudd_zdd a plain `decref(u)` spends the handle's own
+    reference (`u._ref -= 1`, `u.node = NULL` at zero), after which
+    `u.__dealloc__` releases nothing: the temporary reference is never
+    returned.  Only `_direct=True` goes to the library without touching
+    the handle.  Checked on both sides: the release call passes
+    `_direct=True`, and the back ends' `decref` has the direct branch that
+    returns before the handle is touched."""
+    f = P.func('dd._copy._load_json')
+    n = 0
+    for blk in au.blocks_of(f.node):
+        fresh = set()
+        for s in blk:
+            if isinstance(s, ast.Assign) and isinstance(
+                    s.value, ast.Call) and au.call_name(s.value) in (
+                        '_node_from_int', '_add_int') and isinstance(
+                            s.targets[0], ast.Name):
+                fresh.add(s.targets[0].id)
+            for c in au.calls_in(s, 'decref'):
+                if not (c.args and isinstance(c.args[0], ast.Name)
+                        and c.args[0].id in fresh):
+                    continue
+                n += 1
+                direct = [k for k in c.keywords if k.arg == '_direct']
+                if direct and isinstance(
+                        direct[0].value, ast.Constant) and \
+                        direct[0].value.value is True:
+                    R.holds('R-CYTS', f.qualname,
+                            f'`{au.short(c, 50)}` releases the loader\'s '
+                            'temporary reference directly')
+                else:
+                    R.violation(
+                        'R-CYTS', 'loader-release-not-direct', f.qualname,
+                        'decref',
+                        f'`{au.short(c, 50)}` releases the reference that '
+                        '_make_node took through another Function object '
+                        'without `_direct=True`: in dd.cudd and '
+                        'dd.cudd_zdd this spends the fresh handle\'s own '
+                        'reference instead (the handle then releases '
+                        'nothing when it dies), so every loaded node '
+                        'keeps one reference for ever', unit=f.unit.rel,
+                        line=c.lineno)
+    if n == 0:
+        raise AnalysisError(
+            'R-CYTS/loader-release: the release of the loader\'s '
+            'temporaries in dd._copy._load_json was not found')
+    # the other side of the agreement
+    for mod, cls in (('dd.cudd', 'BDD'), ('dd.cudd_zdd', 'ZDD')):
+        g = P.func(f'{mod}.{cls}.decref', required=False)
+        if g is None:
+            continue
+        ok = False
+        for s in g.node.body:
+            if isinstance(s, ast.If) and au.is_name(s.test, '_direct') \
+                    and s.body and isinstance(s.body[-1], ast.Return):
+                touches = any(
+                    isinstance(x, ast.Attribute) and x.attr in (
+                        '_ref', 'node') and isinstance(
+                            x.ctx, ast.Store) for st in s.body
+                    for x in ast.walk(st))
+                ok = not touches
+        if ok:
+            R.holds('R-CYTS', g.qualname, 'the `_direct` branch returns '
+                    'before the handle is touched')
+        else:
+            R.violation(
+                'R-CYTS', 'direct-branch', g.qualname, '_direct',
+                f'{g.qualname} no longer has a `_direct` branch that '
+                'leaves the handle alone: the JSON loader relies on it',
+                unit=g.unit.rel, line=g.lineno)
+r_loader_release.NAME = 'R-CYTS(loader release)'
